@@ -72,6 +72,15 @@ type g2lUnit struct {
 	foreignTypes map[string]string // "zip.Reader" -> Lean structure name (declared in the imports / preamble) for a struct type of another package
 	limitedReaders bool          // io.LimitedReader{R, N} values are `LimitedReader` structures; io.Copy(w, lr) reads through `limRead`
 	walkCalls map[string]string  // "filepath.Walk" -> abstract parameter `Bytes → FsTree FileInfo` (what the file system holds at the root): Walk(root, func…) becomes `walkTree` over that tree with the hoisted closure
+	worldObjs map[string]bool    // struct types whose (single) instance lives in the threaded world: fields of a value of such a type are fields of `world`, its methods take no receiver
+	onceCalls map[string]string  // "c.initOnce.Do" -> Boolean world field: sync.Once.Do(f) runs the method value f unless the field is set, and sets it
+	cacheCalls map[string]string // "c.record.Do" -> world field holding the memo table (association list): parCache.Do(key, func) looks the key up and otherwise runs the function and stores its result
+	anyType   string             // Lean type standing for interface{} (the value type of the memo tables)
+	localTypes map[string]string // types declared inside function bodies -> Lean structure of the preamble ("cached" -> "Cached")
+	midamble  map[string]string  // function -> hand-written Lean text emitted right before its definition (glue between regenerated functions and imported units)
+	ignoreRecover bool           // `defer func() { … recover() … }()` is dropped: a panic stays Err.panic
+	extraTypeVars []string       // type variables of function signatures besides the abstract types (the world type W)
+	paramStructs  []string       // struct types declared in an imported unit that take the abstract type variables as parameters ("Tree")
 	lambdaClosures bool          // `f := func(x) T { return <pure expr> }` becomes a Lean function VALUE (it can be passed on), not a hoisted definition
 	structTV  map[string]bool   // computed: struct is parametric in the abstract type variables
 }
@@ -326,6 +335,14 @@ func (f *g2lFn) leanType(t types.Type, at ast.Node) string {
 	if ft := f.foreignType(t); ft != "" {
 		return ft
 	}
+	if it, ok := t.Underlying().(*types.Interface); ok && it.NumMethods() == 0 && f.u.anyType != "" {
+		return f.u.anyType
+	}
+	if n, ok := t.(*types.Named); ok && n.Obj().Parent() != f.p.pkg.Scope() && n.Obj().Pkg() == f.p.pkg {
+		if lt, ok := f.u.localTypes[n.Obj().Name()]; ok {
+			return lt
+		}
+	}
 	if n, ok := t.(*types.Named); ok {
 		name := n.Obj().Name()
 		if v, ok := f.u.absTypes[name]; ok {
@@ -440,6 +457,9 @@ func (f *g2lFn) zero(t types.Type, at ast.Node) string {
 		}
 		if _, ok := f.u.ifaceStructs[n.Obj().Name()]; ok {
 			return "(default : " + n.Obj().Name() + ")"
+		}
+		if v, ok := f.u.ifaces[n.Obj().Name()]; ok {
+			return "(default : (" + v + "))"
 		}
 		if _, ok := n.Underlying().(*types.Struct); ok {
 			return "(default : " + f.structType(n.Obj().Name()) + ")"
@@ -606,6 +626,10 @@ func (f *g2lFn) expr(b *binds, e ast.Expr) string {
 			return "false"
 		}
 	}
+	if tv, ok := f.p.info.Types[e]; ok && tv.Type != nil && !tv.IsType() && f.isWorldObj(tv.Type) {
+		// the client object itself is not a value: its state is in `world`
+		return "()"
+	}
 	switch e := e.(type) {
 	case *ast.ParenExpr:
 		return f.expr(b, e.X)
@@ -764,6 +788,12 @@ func (f *g2lFn) expr(b *binds, e ast.Expr) string {
 		if sel, ok := f.p.info.Selections[e]; ok && sel.Kind() == types.FieldVal {
 			// promoted fields of embedded structs: x.Before  ==>  x.Comments.Before
 			t := f.typeOf(e.X)
+			if f.isWorldObj(t) {
+				if f.worldVar == nil {
+					f.bad(e, "field of a world object in a function that does not thread the world")
+				}
+				return "((world)." + leanIdent(e.Sel.Name) + ")"
+			}
 			path := "(" + f.expr(b, e.X) + ")"
 			for _, ix := range sel.Index() {
 				if pt, ok := t.(*types.Pointer); ok {
@@ -805,6 +835,14 @@ func (f *g2lFn) expr(b *binds, e ast.Expr) string {
 	case *ast.CompositeLit:
 		return f.composite(b, e)
 	case *ast.TypeAssertExpr:
+		// x.(T) where x has the configured interface{} representation and T is its local struct type: the value itself
+		if f.u.anyType != "" && e.Type != nil {
+			if it, ok := f.typeOf(e.X).Underlying().(*types.Interface); ok && it.NumMethods() == 0 {
+				if f.leanType(f.p.info.Types[e.Type].Type, e) == f.u.anyType {
+					return f.expr(b, e.X)
+				}
+			}
+		}
 		// `_, ok := err.(*T)` on an error value: only the boolean is meaningful
 		if isErrorType(f.typeOf(e.X)) && e.Type != nil {
 			t := f.p.info.Types[e.Type].Type
@@ -936,9 +974,15 @@ func (f *g2lFn) composite(b *binds, e *ast.CompositeLit) string {
 		parts := []string{}
 		for i, el := range e.Elts {
 			if kv, ok := el.(*ast.KeyValueExpr); ok {
-				parts = append(parts, fmt.Sprintf("%s := %s", leanIdent(kv.Key.(*ast.Ident).Name), f.expr(b, kv.Value)))
+				var ft types.Type
+				for j := 0; j < u.NumFields(); j++ {
+					if u.Field(j).Name() == kv.Key.(*ast.Ident).Name {
+						ft = u.Field(j).Type()
+					}
+				}
+				parts = append(parts, fmt.Sprintf("%s := %s", leanIdent(kv.Key.(*ast.Ident).Name), f.exprAs(b, kv.Value, ft)))
 			} else {
-				parts = append(parts, fmt.Sprintf("%s := %s", leanIdent(u.Field(i).Name()), f.expr(b, el)))
+				parts = append(parts, fmt.Sprintf("%s := %s", leanIdent(u.Field(i).Name()), f.exprAs(b, el, u.Field(i).Type())))
 			}
 		}
 		return "({ (default : " + name + ") with " + strings.Join(parts, ", ") + " } : " + name + ")"
@@ -1235,4 +1279,16 @@ func (f *g2lFn) toIface(b *binds, e ast.Expr, t types.Type) string {
 		parts = append(parts, leanIdent(m.Name())+" := "+method(m))
 	}
 	return "({ " + strings.Join(parts, ", ") + " } : " + n.Obj().Name() + ")"
+}
+
+// isWorldObj: t is (a pointer to) a struct type of the package whose single instance lives in the threaded world
+func (f *g2lFn) isWorldObj(t types.Type) bool {
+	if t == nil || len(f.u.worldObjs) == 0 {
+		return false
+	}
+	if p, ok := t.(*types.Pointer); ok {
+		t = p.Elem()
+	}
+	n, ok := t.(*types.Named)
+	return ok && n.Obj().Pkg() == f.p.pkg && f.u.worldObjs[n.Obj().Name()]
 }
